@@ -1,0 +1,16 @@
+//go:build verif
+
+// Package verifhook provides named scheduling points for the verification
+// harness. It is only active in builds with the "verif" tag; in normal builds
+// At compiles to nothing.
+package verifhook
+
+// Point, when set by the harness, is called at every scheduling point.
+var Point func(string)
+
+// At marks a scheduling point.
+func At(n string) {
+	if Point != nil {
+		Point(n)
+	}
+}
